@@ -434,12 +434,15 @@ def _derived(ct, tier, seed):
              '%s: %s vs %s' % (lname, fan.data[0][0][0][:nr], wy), inputs)
         try:
             nf = 3
-            rv = RmsWavefrontErrorVsField(L, num_fields=nf, wavelengths=[pw], num_rays=4)
-            for i, Hy in enumerate(np.linspace(0, 1, nf)):
-                w = wavefront.Wavefront(L, fields=[(0.0, float(Hy))], wavelengths=[pw], num_rays=4, distribution='hexapolar').data[0][0][0]
-                cases += 1
-                note('C09.runtime.rms_wavefront_vs_field_is_rms_opd_at_each_field', eq(rv._wavefront_error[i][0], np.sqrt(np.mean(w ** 2))),
-                     '%s Hy=%s' % (lname, Hy), inputs)
+            # every documented argument is honoured: the requested pupil sampling (default and non-default), ray count, wavelengths
+            for dist_, nr_ in (('hexapolar', 4), ('uniform', 5), ('ring', 6)):
+                rv = RmsWavefrontErrorVsField(L, num_fields=nf, wavelengths=[pw], num_rays=nr_, distribution=dist_)
+                for i, Hy in enumerate(np.linspace(0, 1, nf)):
+                    w = wavefront.Wavefront(L, fields=[(0.0, float(Hy))], wavelengths=[pw], num_rays=nr_, distribution=dist_).data[0][0][0]
+                    cases += 1
+                    note('C09.runtime.rms_wavefront_vs_field_is_rms_opd_at_each_field',
+                         eq(rv._wavefront_error[i][0], np.sqrt(np.mean(w ** 2))) and len(rv.data[i][0][0]) == len(w),
+                         '%s Hy=%s %s/%d: %s vs %s' % (lname, Hy, dist_, nr_, rv._wavefront_error[i][0], np.sqrt(np.mean(w ** 2))), inputs)
         except Exception as ex:
             note('C09.runtime.rms_wavefront_vs_field_is_rms_opd_at_each_field', False, 'raised %s: %s' % (type(ex).__name__, ex), inputs)
         try:
